@@ -4,13 +4,16 @@ ROOT = os.path.dirname(os.path.dirname(os.path.abspath(__file__)))
 props = json.load(open(os.path.join(ROOT, "contracts/properties.json")))
 units = sorted(set(u for p in props["properties"].values() for u in p.get("units", []) if u != "skel"))
 base = {}
+params = {}
 d = tempfile.mkdtemp(dir="/var/tmp")
 for u in units:
     subprocess.run([os.path.join(ROOT, "tools/vx/target/release/vx"), "extract", "--repo", os.environ.get("VERIF_REPO", "/repo"), "--spec", os.path.join(ROOT, "contracts/units", u + ".vspec"),
                     "--contracts", os.path.join(ROOT, "contracts"), "--out", os.path.join(d, u + ".rs"), "--map", os.path.join(d, u + ".map.json")], check=True, capture_output=True)
     m = json.load(open(os.path.join(d, u + ".map.json")))
     base[u] = sorted([[c["fn"], c["passed_to"], c["params"]] for c in m.get("closures_without_contract", [])])
+    params[u] = m.get("param_names", {})
 old = json.load(open(os.path.join(ROOT, "contracts/closure_baseline.json")))
 old["units"] = base
 json.dump(old, open(os.path.join(ROOT, "contracts/closure_baseline.json"), "w"), indent=1)
+json.dump({"_comment": "parameter names of the functions under contract on the pinned tree; the contract and hint texts are written against these names. A renamed parameter is renamed in those texts mechanically (R22).", **params}, open(os.path.join(ROOT, "contracts/param_baseline.json"), "w"), indent=1)
 print(base)
